@@ -3,7 +3,8 @@
    `matches` (EntityMatcher::captures): the regex crate is an oracle. *)
 From Coq Require Import List NArith Bool Arith Permutation Sorted.
 From Okv Require Import Model.ImpConfig Model.ImpConfigSpec Model.ImpExtract Model.ImpExtractSpec
-     Model.ImpSingleEntry Proofs.ImpConfigProofs Proofs.ImpExtractProofs.
+     Model.ImpSingleEntry Model.ImpCsv Model.ImpCamtMatch Model.ImpVisecaMatch
+     Proofs.ImpConfigProofs Proofs.ImpExtractProofs Proofs.ImpVisecaProofs.
 From Okv Require Proofs.ImpExamples.   (* the hypotheses are satisfiable *)
 Import ListNotations.
 
@@ -151,3 +152,45 @@ Proof.
   subst p. rewrite counter_clear_values by exact H. destruct (g_cleared _); auto.
 Qed.
 Print Assumptions C17_pending_rule.
+
+(* "each seeing the payee as rewritten by earlier rules", for the matcher adapters of the three
+   importers (the abstract `matches` of the theorems above is instantiated by these): a `payee`
+   matcher of a rule that comes after the rules rs is applied to the payee the last hit among rs
+   that set or captured a payee left - for CSV and Viseca records to the statement's payee when
+   there is none, for Camt053 records (which have no payee of their own) to nothing; a Viseca
+   `category` matcher always reads the category line *)
+Theorem C17_payee_matcher_sees_rewritten_payee : forall P (cap : P -> str -> option captures)
+    (rs : list (rule P)) (p : P),
+  (forall e : record,
+     csv_matches cap (RPayee, p) e (extract (csv_matches cap) rs e)
+     = cap p (match spec_payee (hits (csv_matches cap) frag0 rs e) with
+              | Some q => q | None => rc_payee e end))
+  /\ (forall e : viseca_entity,
+     viseca_matches cap (RPayee, p) e (extract (viseca_matches cap) rs e)
+     = cap p (match spec_payee (hits (viseca_matches cap) frag0 rs e) with
+              | Some q => q | None => ve_payee e end))
+  /\ (forall e : camt_entity,
+     camt_matches cap (RPayee, p) e (extract (camt_matches cap) rs e)
+     = match spec_payee (hits (camt_matches cap) frag0 rs e) with
+       | Some q => cap p q | None => None end)
+  /\ (forall (e : viseca_entity) (f : frag), viseca_matches cap (RCategory, p) e f = cap p (ve_category e)).
+Proof.
+  intros P cap rs p. split; [intros e; apply csv_payee_seen|].
+  split; [intros e; apply viseca_payee_seen|]. split; [intros e; apply camt_payee_seen|].
+  intros e f; apply viseca_category_seen.
+Qed.
+Print Assumptions C17_payee_matcher_sees_rewritten_payee.
+
+(* what the Viseca importer books for a record, in terms of the rules that hit it: payee and code
+   of the last hit that set / captured one (else the statement's payee, and no code), the account
+   of the last assigning hit, pending unless some assigning hit is not flagged pending *)
+Theorem C17_viseca_record_outcome : forall P (cap : P -> str -> option captures)
+    (rules : list (rule P)) (e : viseca_entity),
+  let hs := hits (viseca_matches cap) frag0 (compile rules) e in
+  viseca_record_view cap rules e
+  = {| vv_payee := one_line (match spec_payee hs with Some q => q | None => ve_payee e end);
+       vv_code := option_map one_line (spec_code hs);
+       vv_dest := spec_account hs;
+       vv_pending := negb (spec_cleared hs) |}.
+Proof. intros P cap rules e. apply viseca_view_hits. Qed.
+Print Assumptions C17_viseca_record_outcome.
